@@ -123,11 +123,17 @@ def isLimited (cfg : Config) (s : State) (addr cmd : String) (now : Int) : Optio
          | some (false, dq) => some (false, setDq s2 (.ip addr) cmd dq))
       | none => some (false, s2)
 
+/-- the longest interval of any per-address rule: the generic `ip` rules and the rules of every
+    specific-address section (since the `fix:` commit; the pinned code looked at the `ip` rules only) -/
+def cleanupThreshold (cfg : Config) : Int :=
+  let ip := cfg.ipRules.foldl (fun m e => max m (maxInterval e.2)) 0
+  cfg.specific.foldl (fun m sec => sec.2.foldl (fun m' e => max m' (maxInterval e.2)) m) ip
+
 /-- `cleanup()`: for every non-global address, clear command deques idle for longer than the longest
-    *ip* interval, and drop the address when all its command deques were cleared. -/
+    per-address interval, and drop the address when all its command deques were cleared. -/
 def cleanup (cfg : Config) (s : State) (now : Int) : State :=
-  if cfg.ipRules.isEmpty then s else
-  let maxI := cfg.ipRules.foldl (fun m e => max m (maxInterval e.2)) 0
+  if cleanupThreshold cfg = 0 then s else
+  let maxI := cleanupThreshold cfg
   let cleared (e : (Scope × String) × Deque) : Bool :=
     match e.2 with
     | [] => true
